@@ -1,4 +1,5 @@
 import builtins
+import contextlib
 import copy
 import copyreg
 import functools
@@ -297,11 +298,12 @@ def mutate_value(
         if not mutate_safe:
             value = protect_via_deepcopy(value)
             mutate_safe = True
-        for attr, attr_value in attrs.items():
-            if attr in used_attrs:
-                continue
-            if attr_value is not MISSING:
-                setattr(value, attr, attr_value)
+        with _rollback_on_error(value):
+            for attr, attr_value in attrs.items():
+                if attr in used_attrs:
+                    continue
+                if attr_value is not MISSING:
+                    setattr(value, attr, attr_value)
     elif attrs:
         raise ValueError("Cannot use attrs on a missing value without a constructor.")
 
@@ -313,12 +315,32 @@ def mutate_value(
     if attr_transforms:
         if not mutate_safe:
             value = protect_via_deepcopy(value)
-        for attr, attr_transform in attr_transforms.items():
-            transformed_value = attr_transform(getattr(value, attr, MISSING))
-            if transformed_value is not MISSING:
-                setattr(value, attr, transformed_value)
+        with _rollback_on_error(value):
+            for attr, attr_transform in attr_transforms.items():
+                transformed_value = attr_transform(getattr(value, attr, MISSING))
+                if transformed_value is not MISSING:
+                    setattr(value, attr, transformed_value)
 
     return value
+
+
+@contextlib.contextmanager
+def _rollback_on_error(value: Any):
+    """
+    Make a sequence of attribute assignments on `value` all-or-nothing: if one
+    of them raises, the attributes assigned so far (and anything invalidated
+    along the way) are restored before the exception propagates. This matters
+    when `value` is being mutated in place.
+    """
+    state = getattr(value, "__dict__", None)
+    snapshot = dict(state) if isinstance(state, dict) else None
+    try:
+        yield
+    except BaseException:
+        if snapshot is not None:
+            state.clear()
+            state.update(snapshot)
+        raise
 
 
 def prepare_attr_value(
